@@ -65,6 +65,13 @@ def rule_models(tier):
                 dict(type='assignment', target=X, rhs=('+', ('*', NUM(4), ID('p')), ID(A)), freq='repeated'),
                 dict(type='assignment', target=Y, rhs=('+', ('*', NUM(2), ('vol',)), ID(X)), freq='repeated')],
                {'p': 1.0, 'q': 2.0}, ['volume'])
+        # rules that read the time explicitly (also run on a grid that does not start at 0, deterministic mode)
+        if rx in ('norx', 'rx1'):
+            mk('time_rules_%s' % rx, rx,
+               [dict(type='assignment', target='p', rhs=('+', NUM(0.5), ('*', NUM(0.5), ('t',))), freq='repeated'),
+                dict(type='assignment', target=X, rhs=('+', ('*', NUM(2), ('t',)), ID(A)), freq='repeated'),
+                dict(type='assignment', target=Y, rhs=('+', ('*', NUM(4), ID('p')), ID(X)), freq='repeated')],
+               {'p': 1.0, 'q': 2.0}, ['fixed_point', 'time'])
         # (c): scheduled rules at every interior grid time and at the start
         for tau in (['start', 0.25, 0.5, 0.75] if tier == 'thorough' or rx in ('rx1', 'rx_rule_species') else ['start', 0.5]):
             mk('sched_%s_%s' % (tau, rx), rx,
@@ -163,6 +170,15 @@ def run_config(c, cfg):
         bad = fixed_point_violation(sp, rows, times)
         if bad and 'fixed_point' in tags:
             c.violation(pre + 'fixed-point', bad, case(rows=rows))
+        if 'time' in tags:
+            # the same model on a grid that starts later (the first time point is where the initial condition applies)
+            t2 = [0.5 + t_ for t_ in times]
+            res2 = py_simulate_model(np.array(t2), Model=to_model(sp), stochastic=False, return_dataframe=False)
+            rows2 = [[float(r[order.index(s)]) for s in sp['species']] for r in res2.py_get_result()]
+            c.count('evaluations'); c.count('traces'); c.count('transitions', len(rows2))
+            bad = fixed_point_violation(sp, rows2, t2)
+            if bad:
+                c.violation(pre + 'fixed-point-offset-grid', bad, case(rows=rows2, extra=dict(times=t2)))
         c.nontrivial((name, mode, grid))
         return
     if mode == 'lineage':
@@ -267,6 +283,8 @@ def run(ctx):
     cfgs = []
     for name, sp, tags in rule_models(ctx.tier):
         for mode in MODES:
+            if 'time' in tags and mode != 'det':
+                continue        # the claim about stochastic rows is limited to rules over species and parameters
             for grid in (['u5'] if ctx.quick else ['u5', 'u4h']):
                 if mode == 'det' and grid != 'u5':
                     continue
